@@ -1017,6 +1017,18 @@ func (e *SEnv) call(x *SCall) Val {
 			n.locSt = e.headSt
 			n.headSt = nil
 			return n.eval(x.Args[0])
+		case "$headmem":
+			// memory (heap, maps) as at the start of the iteration, locals as they are now
+			if e.headSt == nil {
+				e.fail("$headmem() is available in loop step clauses only")
+			}
+			n := e.sub()
+			n.cur = e.headSt
+			if n.locSt == nil {
+				n.locSt = e.cur
+			}
+			n.headSt = nil
+			return n.eval(x.Args[0])
 		case "$rng":
 			k, _ := strconv.Atoi(x.Args[0].(*SInt).V)
 			return e.fr.rangeValue(e.localState(), k)
